@@ -479,8 +479,9 @@ fn enum_unit(ctx: &Ctx, set: &dyn DynSet, entry: Entry, variant: u64, run: u64) 
         out.sigs.insert(signature(info.name, prov, op, &o));
         count_fault_events(&mut out, op, &o);
         if !o.any_failed {
-            out.harness = Some(format!("C12: planned fault did not fire for {} ({})", entry.name(), fault_sig(op)));
-            return out;
+            // the call completed before reaching the planned fault (e.g. it asked for fewer bytes
+            // than the short reads already delivered): legal, counted as configured-but-not-fired
+            bump(&mut out.probes, "planned_fault_not_reached", 1);
         }
         if let Some((_, RngFault::ErrPartial(_))) = op.rng_plan.first() {
             bump(&mut out.probes, "partial_write_then_error_with_plausible_prefix", 1);
@@ -547,6 +548,19 @@ fn enum_unit(ctx: &Ctx, set: &dyn DynSet, entry: Entry, variant: u64, run: u64) 
 
     // ---- I4: every drawn bit matters ----
     let d = o0.delivered.len();
+    let need = if entry == Entry::Dudect { 64 } else { 32 };
+    if d < need {
+        out.viols.push(viol(
+            info.name, &key_seed, prov, &[base.clone()], 0,
+            (
+                "I4-short-draw".into(),
+                format!("only {d} bytes of randomness were drawn during a fault-free call"),
+                format!("at least {need} bytes (xi / rnd are 32 bytes each)"),
+            ),
+            None, run,
+        ));
+        return out;
+    }
     for bit in 0..d * 8 {
         let mut op = base.clone();
         op.stream[bit / 8] ^= 1 << (bit % 8);
@@ -813,6 +827,16 @@ pub fn replay_body(body: &Value) -> Result<Option<(String, String, String)>, Str
     let o = last.unwrap();
     if let Some(inv) = judge(&ops[focus], &o) {
         return Ok(Some(inv));
+    }
+    if !o.any_failed && matches!(o.res, Res::Ok(_)) {
+        let need = if ops[focus].entry == Entry::Dudect { 64 } else { 32 };
+        if o.delivered.len() < need {
+            return Ok(Some((
+                "I4-short-draw".into(),
+                format!("only {} bytes of randomness were drawn during a fault-free call", o.delivered.len()),
+                format!("at least {need} bytes (xi / rnd are 32 bytes each)"),
+            )));
+        }
     }
     if let Some(bit) = body["bit"].as_u64() {
         let bit = bit as usize;
